@@ -166,6 +166,29 @@ func c08Object(c *mon.Ctx, x psatoken.IClaims, k keys.Pair, sig string, det map[
 				bad("ValidateAndSign/not-verifiable", "valid set: the token of ValidateAndSign does not verify")
 				break
 			}
+			// SetClaims on an Evidence that HOLDS an envelope behaves like the plain
+			// assignment of the same (valid, other) claims object: the envelope stays
+			if y, derr := psatoken.DecodeClaimsFromCBOR(nb); derr == nil && y.Validate() == nil {
+				if d1, err1 := psatoken.DecodeEvidenceFromCOSE(vt); err1 == nil {
+					d2, _ := psatoken.DecodeEvidenceFromCOSE(vt)
+					serr := d1.SetClaims(y)
+					d2.Claims = y
+					v1, v2 := d1.Verify(k.Pub), d2.Verify(k.Pub)
+					c.Count("setclaims-on-evidence-holding-an-envelope")
+					if serr != nil || (v1 == nil) != (v2 == nil) {
+						bad("SetClaims/differs-from-assignment", fmt.Sprintf("decoded Evidence: SetClaims(valid claims) returned %v, Verify afterwards %v; with plain assignment of the same claims Verify gives %v", serr, v1, v2))
+						break
+					}
+				}
+				serr := e1.SetClaims(y)
+				e2.Claims = y
+				if v1, v2 := e1.Verify(k.Pub), e2.Verify(k.Pub); serr != nil || (v1 == nil) != (v2 == nil) {
+					bad("SetClaims/differs-from-assignment", fmt.Sprintf("signing Evidence: SetClaims(valid claims) returned %v, Verify afterwards %v; with plain assignment Verify gives %v", serr, v1, v2))
+					break
+				}
+				_ = e1.SetClaims(x)
+				e2.Claims = x
+			}
 			// the Evidence signed by the validating gate keeps verifying while the library is used for other objects
 			held08ev = append(held08ev, c08HeldEv{e1, k.Pub, sig})
 			if len(held08ev) > 6 {
@@ -415,7 +438,7 @@ func invalidateInPlace(g *model.Gen, y psatoken.IClaims) string {
 }
 
 func runC08(c *mon.Ctx) {
-	c.Rule("every claims-set class of C01 (valid, each single / double / triple rule violation, random products; both profiles; a registered P2-based extension with its own extra rule (negative timestamp) so that a gate that runs only the generic rules is visible) built by direct field assignment, plus objects whose only defect is a profile claim that does not match the implementing type (canonical name unset / foreign; an extension object carrying its base profile's name - not expressible on the wire), plus a second, stricter registered extension whose own rules are reported with the library's ignorable sentinels (mandatory boot seed -> missing-optional, forbidden VSI -> not-in-profile); pushed through the object-side gates (also: attached/encoded while valid, then made invalid IN PLACE through a clearing setter, an exported field or a retained component pointer, and pushed through the gates again) SetClaims, ValidateAndEncodeClaimsToCBOR, ValidateAndEncodeClaimsToJSON, ValidateAndSign (7 algorithms, signer wrapped to count invocations); extension-profile tokens (CBOR, JSON, COSE) that break only the extension's own rule; the wire tokens of C04 (valid / rule-breaking / type-breaking / open encodings), JSON documents of valid and rule-breaking sets, and COSE envelopes (tokens signed with the non-validating Sign, and C04 wire tokens wrapped + signed by the harness) pushed through DecodeAndValidateClaimsFromCBOR, DecodeAndValidateClaimsFromJSON, the deprecated DecodeJSONClaims, DecodeAndValidateEvidenceFromCOSE. Oracle: the library's own Validate() on the same object / on the non-validating sibling's result: Validate fails => the gate returns an error, no bytes, no object, attaches nothing (and never invokes the signer); Validate succeeds => the gate's result equals the non-validating sibling's (bytes, payload+protected header, claims observation, Verify). Also claims whose Validate() PANICS (typed nil *P1Claims / *P2Claims; a registered extension with a careless validator, as object and as CBOR / JSON / COSE token lacking the extension claim; positive control with the claim): a gate may return an error or let the panic propagate but must never report success, hand out bytes, invoke the signer or attach; and VALID claims of an extension profile that was never registered go through every object gate exactly like through the non-validating sibling. distinct_nontrivial = distinct (gate family, profile, violated-claim classes) signatures")
+	c.Rule("every claims-set class of C01 (valid, each single / double / triple rule violation, random products; both profiles; a registered P2-based extension with its own extra rule (negative timestamp) so that a gate that runs only the generic rules is visible) built by direct field assignment, plus objects whose only defect is a profile claim that does not match the implementing type (canonical name unset / foreign; an extension object carrying its base profile's name - not expressible on the wire), plus a second, stricter registered extension whose own rules are reported with the library's ignorable sentinels (mandatory boot seed -> missing-optional, forbidden VSI -> not-in-profile); pushed through the object-side gates (also: attached/encoded while valid, then made invalid IN PLACE through a clearing setter, an exported field or a retained component pointer, and pushed through the gates again) SetClaims, ValidateAndEncodeClaimsToCBOR, ValidateAndEncodeClaimsToJSON, ValidateAndSign (7 algorithms, signer wrapped to count invocations); extension-profile tokens (CBOR, JSON, COSE) that break only the extension's own rule; the wire tokens of C04 (valid / rule-breaking / type-breaking / open encodings), JSON documents of valid and rule-breaking sets, and COSE envelopes (tokens signed with the non-validating Sign, and C04 wire tokens wrapped + signed by the harness) pushed through DecodeAndValidateClaimsFromCBOR, DecodeAndValidateClaimsFromJSON, the deprecated DecodeJSONClaims, DecodeAndValidateEvidenceFromCOSE. Oracle: the library's own Validate() on the same object / on the non-validating sibling's result: Validate fails => the gate returns an error, no bytes, no object, attaches nothing (and never invokes the signer); Validate succeeds => the gate's result equals the non-validating sibling's (bytes, payload+protected header, claims observation, Verify). SetClaims(valid) on an Evidence that already holds an envelope (decoded / has signed) must leave Verify as the plain assignment does. Also claims whose Validate() PANICS (typed nil *P1Claims / *P2Claims; a registered extension with a careless validator, as object and as CBOR / JSON / COSE token lacking the extension claim; positive control with the claim): a gate may return an error or let the panic propagate but must never report success, hand out bytes, invoke the signer or attach; and VALID claims of an extension profile that was never registered go through every object gate exactly like through the non-validating sibling. distinct_nontrivial = distinct (gate family, profile, violated-claim classes) signatures")
 	if err := extprof.Register(extprof.ExtP2Name, extprof.ExtP1Name, extprof.ExtStrictName); err != nil {
 		c.Violation("harness/register", err.Error(), nil)
 		return
@@ -811,6 +834,7 @@ func runC08(c *mon.Ctx) {
 		guard("cose decode gates", map[string]any{"token_hex": mon.Hex(tok)}, func() { c.Count("cose:" + c08DecodeCOSE(c, tok, k.Pub, sig)) })
 	}
 	c.Floor("objects:valid", 1000)
+	c.Floor("setclaims-on-evidence-holding-an-envelope", 500)
 	c.Floor("objects:validate-panics:typed-nil-claims", 100)
 	c.Floor("objects:validate-panics:fragile-extension-claim-absent", 100)
 	c.Floor("objects:valid-unregistered-extension", 100)
